@@ -17,7 +17,8 @@ from isla.helpers import merge_intervals
 from returns.maybe import Some, Nothing
 
 M = sys.maxsize
-Q_QUIRK = False   # `value_or(lambda: False)` quirk present in /repo (see design_notes/C15.md); flip when fixed
+Q_QUIRK = False   # the `value_or(lambda: False)` quirk was repaired in /repo (8295ba7): the model is run with q = false,
+                  # and section 0b demands Nothing on the former witnesses — a regression is a VIOLATION
 IMPORTS = "Str Outcome IvRe Intervals IvShape"
 
 # --------------------------------------------------------------------------
@@ -209,6 +210,35 @@ def deviate(rng, t):
     return put(t, path, new)
 
 
+
+# --------------------------------------------------------------------------
+# deep regexes (nesting > 22 through Concat/Union of many elements): z3's printer abbreviates such terms with
+# `...`, so str(regex) of two members of one family is IDENTICAL although the regexes differ in their innermost
+# (= first) element.  Used by the stateful streams: every call's result must not depend on earlier calls.
+# --------------------------------------------------------------------------
+CONCAT_FIRSTS = [("str", "-"), ("str", "+"), ("opt", ("str", "-")), ("opt", ("str", "+")), ZERO, ("plus", ZERO),
+                 ("union", ("str", "+"), ("str", "-")), ("union", ("str", "-"), ZERO), ("str", "7"), ("str", "a")]
+UNION_FIRSTS = [("str", d) for d in "0123456789"] + [("range", "1", "3"), ("range", "6", "8"), ("star", ZERO), ("str", "a")]
+
+
+def deep_family(rng):
+    """list of >= 3 terms of nesting depth > 22 that differ only in the innermost element"""
+    n = rng.randint(23, 31)
+    if rng.random() < 0.6:
+        mid = [ZERO] * n if rng.random() < 0.6 else [rng.choice([ZERO, ZERO, ("star", ZERO)]) for _ in range(n)]
+        tail = rng.choice([[("range", "1", "9")], [("range", rng.choice("123"), rng.choice("789"))], [("str", rng.choice("123456789"))],
+                           [R19, ("star", R09)], [R19, ("plus", R09)]])
+        firsts = rng.sample(CONCAT_FIRSTS, rng.choice([3, 4]))
+        return [nest("concat", [f] + mid + tail) for f in firsts]
+    rest = [("str", rng.choice("0123456789")) for _ in range(rng.choice([1, 2]))]
+    rest = [rest[i % len(rest)] for i in range(n)]
+    firsts = rng.sample(UNION_FIRSTS, rng.choice([3, 4]))
+    return [nest("union", [f] + rest) for f in firsts]
+
+
+def depth(t):
+    return 1 + max([depth(x) for x in t[1:] if isinstance(x, tuple)] or [0])
+
 # --------------------------------------------------------------------------
 # implementation outcomes and their Gallina renderings
 # --------------------------------------------------------------------------
@@ -297,7 +327,10 @@ def run(run):
         "reordered/duplicated concatenation elements), built with the z3 API; functional equality impl vs Gallina model "
         "(nifr, compress, merge); matcher model vs Z3 InRe on strings over {0,1,5,9,+,-,a} of length<=4; property searched on "
         "every regex the implementation gives intervals for, over all numerals (sign, <=8 zeros padding) of the values "
-        "-25..25, +-99..101, +-12345, +-(maxsize-1..maxsize+1), +-(10^19+7). non-trivial = regex has a concatenation or union node")
+        "-25..25, +-99..101, +-12345, +-(maxsize-1..maxsize+1), +-(10^19+7). STATEFUL streams in one process: families of deep regexes "
+        "(nesting 24..33 via Concat/Union of many elements) whose members differ only in the innermost element and have IDENTICAL str() "
+        "(z3 abbreviates deep terms), every member queried in order plus repeats and each answer compared with the model; the same for "
+        "compress on lists of such deep elements; 300 earlier regexes re-queried at the end. non-trivial = regex has a concatenation or union node")
     proof_ok = run.proof_stage()
     known = {e["key"]: e for e in lib.known_findings("C15") if e.get("status") == "open"}
 
@@ -312,6 +345,17 @@ def run(run):
                 ov, ex = property_at(t, o[1])
                 if (w.get("kind") == "exact" and ex not in (None, "n/a")) or (w.get("kind") == "over" and ov not in (None, "n/a")):
                     run.known(e["what"])
+
+    # ---------------- 0b. repaired defects stay repaired (finding valueor-lambda, fixed in 8295ba7) ----------------
+    for t in (("star", ("opt", ("str", "5"))), ("star", ("str", "a")), nest("concat", [("str", "a"), ("plus", R09)]),
+              nest("concat", [("str", "a"), ("star", R09)]), nest("concat", [("range", "5", "3"), ("plus", R09)])):
+        o = impl_nifr(t)
+        run.count(("fixed-valueor", t), True)
+        if o[0] != "none":
+            ov, ex = property_at(t, o[1]) if o[0] == "some" else (None, None)
+            run.violation({"kind": "regression of a repaired defect: intervals invented for an unrecognised expression (value_or(lambda: False))",
+                           "witness": {"regex": str(to_z3(t)), "term": t, "impl": o, "expected": "Nothing", "property_over": ov},
+                           "theorem": "Props/C15.v C15_outside_shape_unsound_refuted (model with q = false gives Nothing)"})
 
     # ---------------- 1. numeric_intervals_from_regex ----------------
     n_shape = 4000 if thorough else 1000
@@ -414,6 +458,63 @@ def run(run):
                        "all_failing": len(unexplained), "how_to_replay": "./check C15 --replay <this file>",
                        "theorem": "Props/C15.v C15_intervals_overapprox / C15_intervals_exact_partial + correspondence"})
 
+    # ---------------- 2b. stateful streams: a call's result must not depend on earlier calls ----------------
+    # (i) families of deep regexes with identical str(); members queried in one process, in order, with repeats
+    # (ii) compress on element lists built from such deep regexes (equal str, different elements must NOT be grouped)
+    # (iii) a sample of the regexes of section 1 queried a second time after everything else
+    n_fam = 160 if thorough else 36
+    stream, smeta, scases = [], [], []
+    fams = [[nest("concat", [("str", sg)] + [ZERO] * 30 + [R19]) for sg in "-+"]]            # the seeded witness, first
+    fams += [deep_family(rng) for _ in range(n_fam)]
+    for fi, fam in enumerate(fams):
+        order = list(range(len(fam))) + [rng.randrange(len(fam)) for _ in range(2)]              # every member, then two repeats
+        if fi: rng.shuffle(order)
+        for j in order:
+            t = fam[j]
+            z = to_z3(t)
+            assert from_z3(z) == t and depth(t) > 22
+            o = impl_nifr(t)
+            stream.append((fi, t)); smeta.append(o)
+            scases.append(f"({g_re(t)}, {g_out(o)})")
+            run.count(("stream", fi, len(stream)), True)
+    same_str = sum(1 for fam in fams if len({str(to_z3(t)) for t in fam}) == 1)
+    run.cov["stream_families"] = len(fams)
+    run.cov["stream_families_with_identical_str"] = same_str
+    run.cov["stream_queries"] = len(stream)
+    run.sample({"stream": [str(to_z3(t))[:60] + " ..." for t in fams[0]], "impl": smeta[:2]})
+    stream_bad = []
+    try:
+        bad, dt = lib.coq_mismatches("c15s", IMPORTS, f"fun c : re * out => out_eqb (nifr_top {qlit} (fst c)) (snd c)", scases, shard=40)
+        run.cov["coq_seconds_stream"] = round(dt, 1)
+        stream_bad = bad
+    except RuntimeError as e:
+        run.violation({"kind": "correspondence-not-evaluable", "obligation": "Intervals.v stream cases", "error": str(e)[-2000:]}, found_input=False)
+    # repeat-consistency of section 1 (history = everything this process has asked so far)
+    again = rng.sample(range(len(terms)), min(len(terms), 300))
+    repeat_bad = [i for i in again if impl_nifr(terms[i]) != outs[i]]
+    for i in again: run.count(("repeat", terms[i]), has_node(terms[i], ("concat", "union")))
+    run.cov["repeat_queries"] = len(again)
+    if stream_bad or repeat_bad:
+        if stream_bad:
+            k = stream_bad[0]
+            fi, t = stream[k]
+            o = smeta[k]
+            hist_terms = [x for (f, x) in stream[:k + 1] if f == fi]
+        else:
+            t, o = terms[repeat_bad[0]], impl_nifr(terms[repeat_bad[0]])
+            hist_terms = [t]
+        ov, ex = property_at(t, o[1]) if o[0] == "some" else (None, None)
+        wit = {"function": "numeric_intervals_from_regex (sequence of calls in one process)", "regex": str(to_z3(t))[:400], "term": t,
+               "history": hist_terms, "impl_after_history": o, "model": lib.coq_eval("c15sm", IMPORTS, f"nifr_top {qlit} {g_re(t)}")[-300:],
+               "first_answer_in_this_run": None if stream_bad else outs[repeat_bad[0]], "property_over": ov, "property_exact": ex}
+        found = ov not in (None, "n/a") or ex not in (None, "n/a") or o[0] == "raise"
+        run.violation({"kind": "result of a call depends on earlier calls (history dependence)" if found else
+                               "correspondence broken in the stateful stream, property holds at the differing call",
+                       "witness": wit, "all_failing": len(stream_bad) + len(repeat_bad), "how_to_replay": "./check C15 --replay <this file>",
+                       "obligation": "correspondence Intervals.v nifr <-> numeric_intervals_from_regex, per call",
+                       "theorem": "Props/C15.v (the model is a function of the regex alone)"}, found_input=found)
+    run.cov["stream_disagreements"] = len(stream_bad) + len(repeat_bad)
+
     # ---------------- 3. compress_concatenation_elements ----------------
     bases = [("str", "a"), ("str", "b"), ZERO, R09, ("star", ("str", "a")), ("plus", ("str", "a")), ("union", ("str", "a"), ("str", "b")),
              ("allchar",), ("opt", ("str", "a")), ("concat", ("str", "a"), ("str", "b"))]
@@ -425,9 +526,18 @@ def run(run):
         k = rng.randint(1, 7)
         bs = rng.sample(bases, rng.choice([1, 1, 2, 3]))
         lists.append([rng.choice([lambda b: b, lambda b: ("star", b), lambda b: ("plus", b)])(rng.choice(bs)) for _ in range(k)])
+    # stateful part: deep elements with identical str() — equal-looking but different elements must not be grouped,
+    # and a later call must not see an earlier call's result
+    for _ in range(60 if thorough else 16):
+        fam = [nest("union", [f] + [("str", "5")] * rng.randint(23, 28)) for f in rng.sample(UNION_FIRSTS[:10], 3)]
+        a, b, c = fam
+        for l in ([a, ("star", a)], [b, ("star", b)], [a, ("star", b)], [("star", c), c, ("plus", c)], [("plus", a), ("plus", b)],
+                  [b, ("star", b)], [("star", a), ("star", b), ("star", a)]):
+            lists.append(list(l))
     ccases, cmeta = [], []
     lang_fail = []
-    strs3 = ["".join(p) for n in range(0, 6) for p in itertools.product("ab", repeat=n)]
+    strs3 = ["".join(p) for n in range(0, 6) for p in itertools.product("ab", repeat=n)] + \
+            ["".join(p) for n in range(1, 4) for p in itertools.product("0123456789", repeat=n) if n < 3 or p[0] in "15"]
     for l in lists:
         zs = [to_z3(t) for t in l]
         try:
@@ -577,8 +687,12 @@ def replay(path):
     if not w or "term" not in w:
         print("replay file names an obligation, not an input:", d.get("obligation") or d.get("kind")); return 1
     t = tup(w["term"])
+    for h in w.get("history", [])[:-1]:          # stateful witnesses: ask the earlier queries first, in order
+        print("history:", str(to_z3(tup(h)))[:80], "->", impl_nifr(tup(h)))
     o = impl_nifr(t)
-    print("regex:", to_z3(t)); print("impl:", o)
+    print("regex:", str(to_z3(t))[:400]); print("impl:", o)
+    if "expected" in w and w["expected"] == "Nothing":
+        return 0 if o[0] == "none" else 1
     if o[0] != "some":
         return 0 if o[0] == "none" else 1
     ov, ex = property_at(t, o[1])
